@@ -55,6 +55,77 @@ def run(ctx):
     ctx.extra["explanation"] = "parse_literal and TypeTracker::track from MIR over a symbolic tracker; widths decided by z3 for all u32 widths."
 
 
+def call_sites(ctx, q, S, rp):
+    """The places that USE the width rule: `parse_inst` (from MIR) on OpConstant / OpSpecConstant with the tracker, the words and
+    the word count symbolic. Whenever the instruction is accepted its literal operand is the one the width table demands for the
+    tracked result type (one word -> LiteralBit32, two -> LiteralBit64) and the type is one the table supports; a tracked type of
+    an unsupported width is never accepted (the rule is not bypassed at the call site)."""
+    I = z3.BitVecSort(32)
+    for opname in ("Constant", "SpecConstant"):
+        e = [x for x in S.T["core"] if x["opname"] == opname]
+        if not e:
+            continue
+        e = e[0]
+        try:
+            eng, res, off, idx = c03.run_entry(S, e, [])
+        except mir.Unsupported as ex:
+            ctx.ob("call-site/%s/encodable" % opname, None, str(ex)[:300])
+            continue
+        ctx.functions.update(eng.stats.functions)
+        rt = z3.Select(S.MEM, off + 4)
+        present = z3.Select(z3.Array("tt.present", I, z3.BoolSort()), rt)
+        isfloat = z3.Select(z3.Array("tt.isfloat", I, z3.BoolSort()), rt)
+        width = z3.Select(z3.Array("tt.width", I, I), rt)
+        want = z3.If(present, ref_words(isfloat, width), 1)
+        bad = None
+        for r in res:
+            if r.status != "return":
+                continue
+            kind, payload = c03.describe_result(r.value)
+            if kind != "Ok":
+                continue
+            ops_ = [o for o in payload.fields[3].items if isinstance(o, sym.Adt)]
+            if len(ops_) != 1 or ops_[0].variant not in ("LiteralBit32", "LiteralBit64"):
+                cond, what = z3.BoolVal(True), "accepted with operands %s" % [o.variant for o in ops_]
+            elif ops_[0].variant == "LiteralBit32":
+                cond, what = want != 1, "accepted with a one-word literal"
+            else:
+                cond, what = want != 2, "accepted with a two-word literal"
+            st, m = q.check(r.pc + [cond], "call-site-width")
+            if st == "sat":
+                bad = (what, m)
+                break
+            if st != "unsat":
+                ctx.ob("call-site/%s/accepted-literal-is-the-table's" % opname, None, m)
+        if bad is None:
+            ctx.ob("call-site/%s/accepted-literal-is-the-table's" % opname, True, "%d paths" % len(res))
+            continue
+        what, m = bad
+        pv, fv, wv = [m.eval(x, model_completion=True) for x in (present, isfloat, width)]
+        wv = wv.as_long()
+        le = c03.le
+        if z3.is_true(pv):
+            decl = (le(3 << 16 | 22) + le(1) + le(wv)) if z3.is_true(fv) else (le(4 << 16 | 21) + le(1) + le(wv) + le(0))
+            tdesc = "%s of width %d" % ("float" if z3.is_true(fv) else "int", wv)
+        else:
+            decl, tdesc = le(2 << 16 | 19) + le(1), "an id that is not a tracked numeric type"
+        refw = m.eval(want, model_completion=True).as_long()
+        witness = None
+        for nwords in (1, 2):
+            cmd = "parse_script %s C" % (c03.HEADER + decl + le((3 + nwords) << 16 | e["opcode"]) + le(1) + le(2) + "".join(le(5 + k) for k in range(nwords)))
+            real = rp.ask(cmd)
+            real["cmd"] = cmd
+            if real.get("result") == "Ok" and nwords != refw:
+                witness = (nwords, real)
+                break
+        if witness:
+            ctx.ob("call-site/%s/accepted-literal-is-the-table's" % opname, False, what)
+            ctx.violation("literal-width/call-site/%s" % opname, "Op%s whose result type is %s is %s: the compiled parser accepts it with a %d-word literal, the width table demands %s" % (
+                opname, tdesc, what, witness[0], "rejection (unsupported width)" if refw == 0 else "%d word(s)" % refw), {"cmd": witness[1]["cmd"], "real": witness[1]})
+        else:
+            ctx.ob("call-site/%s/accepted-literal-is-the-table's" % opname, None, "model-only deviation (%s, type %s); the compiled parser conforms" % (what, tdesc))
+
+
 def literal_lemmas(ctx, q, S, rp):
     """The MIR / z3 part of C10 (also run by C02 and C03, whose statements include the context-dependent literals)."""
     # ---------------- parse_literal
@@ -126,6 +197,7 @@ def literal_lemmas(ctx, q, S, rp):
     statics(ctx, S)
     assembler_widths(ctx, q)
     every_instruction_is_tracked(ctx, S, rp)
+    call_sites(ctx, q, S, rp)
 
 
 def tracker_step(ctx, q, S, rp):
